@@ -519,7 +519,7 @@ def w_fall(direction: int, e: int, kind: int) -> str:
     return _fall_case(rt.sel(direction, 3), rt.sel(e, 4), rt.sel(kind, 6))
 
 
-def _form_case(where, top, alt, hk, fb):
+def _form_case(where, top, alt, hk, fb, first=0):
     """over C07's grid of entry locations x trash-dir states: whichever trash directory ends up holding the entry, the
     Path written there follows THAT directory's rule (absolute in a home trash, relative to $topdir without '..' in
     $topdir/.Trash/$uid and $topdir/.Trash-$uid) and designates the entry"""
@@ -527,7 +527,7 @@ def _form_case(where, top, alt, hk, fb):
     import posixpath
     with rt.untraced():
         rt.begin(('form', c07.WHERE[where], K.TOP_STATES[top], c07.ALT[alt], c07.HOMEK[hk], c07.FALLBACK[fb]))
-        world, step, env, fdir, fvol, tdpath, fallback = c07.scenario(where, top, alt, hk, 0, 0, fb)
+        world, step, env, fdir, fvol, tdpath, fallback = c07.scenario(where, top, alt, hk, 0, 0, fb, first)
         m = W.build_model(world)
         before = m.snap('/')
         _, r = scen.run_model(None, [step], model=m)
@@ -537,6 +537,8 @@ def _form_case(where, top, alt, hk, fb):
         for p, v in added.items():
             if v[0] != 'f' or '/info/' not in p or not p.endswith('.trashinfo'):
                 continue
+            if first and posixpath.basename(p) != 'x.trashinfo':
+                continue  # (the record of the other argument of the run)
             td = p[:p.rindex('/info/')]
             ok, pth, date = scen.spec_parse_info(v[2])
             if not ok:
@@ -557,10 +559,11 @@ def _form_case(where, top, alt, hk, fb):
 def w_form(where: int, top: int, alt: int, hk: int, fb: int) -> str:
     """
     pre: PARTITION is None or where == PARTITION
-    pre: 0 <= where < 8 and 0 <= top < 3 and 0 <= alt < 5 and 0 <= hk < 7 and 0 <= fb < 2
+    pre: 0 <= where < 8 and 0 <= top < 3 and 0 <= alt < 5 and 0 <= hk < 7 and 0 <= fb < 3
     post: _ == ''
     """
-    return _form_case(rt.sel(where, 8), rt.of([0, 1, 2], top), rt.sel(alt, 5), rt.sel(hk, 7), rt.of([0, 3], fb))
+    # (fb == 2: fallback off, and the run first trashes an entry reached THROUGH the link that is named next)
+    return _form_case(rt.sel(where, 8), rt.of([0, 1, 2], top), rt.sel(alt, 5), rt.sel(hk, 7), rt.of([0, 3, 0], fb), rt.of([0, 0, 4], fb))
 
 
 TD_KINDS = ['dir-on-the-entry-volume', 'dir-on-another-volume', 'link-on-root-to-dir-on-v', 'link-on-v-to-dir-on-root', 'link-on-the-same-volume', 'relative-spelling']
@@ -662,7 +665,7 @@ def obligations(tier):
            encodes=K.PUT_FUNCS + K.LIST_FUNCS, stubs=K.STUBS,
            bounds='names: every single byte 1..255 except "/" (0x80.. as undecodable bytes) + 30 special names incl. 255-byte names x 3 layouts x 3 depths (top level, two short components, six 240-byte CJK components: a .trashinfo of 4.4 KB)'),
         CH('W_path_rule_over_locations_and_trash_dir_states', MOD, 'w_form', timeout=1200, partitions=list(range(8)), engine='W', regime='selector', encodes=K.PUT_FUNCS, stubs=K.STUBS,
-           bounds="C07's grid: 8 entry locations (incl. symlinks to a directory of another volume spelled with slashes) x 3 .Trash states x 5 .Trash-uid states x 7 home variants x fallback off / on"),
+           bounds="C07's grid: 8 entry locations (incl. symlinks to a directory of another volume spelled with slashes) x 3 .Trash states x 5 .Trash-uid states x 7 home variants x fallback off / on / off with an entry reached through the link trashed first in the same run"),
         CH('W_path_rule_after_candidate_fallthrough', MOD, 'w_fall', timeout=600, engine='W', regime='selector',
            encodes=K.PUT_FUNCS, stubs=K.STUBS + ['persistent errno on one directory'],
            bounds='3 fall-through directions (home->.Trash-uid, .Trash-uid->home fallback, .Trash/uid->.Trash-uid) x 4 errnos x 6 kinds'),
